@@ -181,6 +181,9 @@ func genFor(rng *rand.Rand, c *comp, t reflect.Type, key string, depth int) (gen
 			if !named {
 				l = []string{tok(rng, "e"), tok(rng, "f")}[:1+rng.Intn(2)]
 			}
+			if rng.Intn(8) == 0 {
+				l = []string{} // a list written as `[]` is a written key like any other (it switches the default list off)
+			}
 			y := make([]any, len(l))
 			w := reflect.MakeSlice(t, len(l), len(l))
 			for i, s := range l {
